@@ -58,9 +58,12 @@ SyncExpect(r, base, prev, ents) ==
      ELSE IF leo = base /\ ChainOK(prev, ents) THEN "durable"
      ELSE "rejected"
 
-StOK(r, st) == /\ st.leo = Len(log'[r])
-               /\ st.cm = committed'[r]
-               /\ st.tail = LastId(log'[r])
+\* st.part = TRUE: the mutation was not the last one of a multi-mutation store call, the store's
+\* state right after it cannot be observed (the last mutation of the call carries the real state)
+StOK(r, st) == \/ st.part
+               \/ /\ st.leo = Len(log'[r])
+                  /\ st.cm = committed'[r]
+                  /\ st.tail = LastId(log'[r])
 
 Keep == UNCHANGED <<callAt, fence, cmdSnap, receipts, wfAuths>>
 Obl(name, ok) == bad' = IF ok THEN "" ELSE name
@@ -70,7 +73,7 @@ TSync(e) ==
       exp == SyncExpect(r, e.base, e.prev, e.ents)
       \* an Unknown outcome (cancelled context, lost reply) may or may not have been written:
       \* the recorded post-state tells which; if it was written it must obey the contract
-      wrote == e.res.out = "unknown" /\ (e.st.leo # Len(log[r]) \/ e.st.cm # committed[r]) IN
+      wrote == e.res.out = "unknown" /\ ~e.st.part /\ (e.st.leo # Len(log[r]) \/ e.st.cm # committed[r]) IN
   /\ IF e.res.out \in {"durable", "already"} \/ wrote
        THEN /\ log' = [log EXCEPT ![r] = IF exp = "durable" THEN log[r] \o e.ents ELSE log[r]]
             /\ committed' = [committed EXCEPT ![r] = Max2(@, e.cm)]
@@ -194,6 +197,13 @@ Obligations == bad = ""
 \* every replica's log is an unbroken predecessor chain
 C02_Chain == \A n \in Node : \A i \in 1..Len(log[n]) :
                log[n][i].prev = (IF i = 1 THEN "" ELSE log[n][i - 1].id)
+\* quorum proof: an offset inside any replica's committed frontier is durably held, with that very
+\* entry, by a write quorum of replicas.  (An acknowledged entry is never removed again - C01 - so
+\* the holders of a committed entry never drop below the quorum that proved it; with three voters
+\* leader + one follower already is a quorum, the five-voter stage is where this bites.)
+C02_CommittedHeldByQuorum ==
+  \A n \in Node : \A k \in 1..Min2(committed[n], Len(log[n])) :
+     Cardinality({m \in Node : Len(log[m]) >= k /\ log[m][k] = log[n][k]}) >= Q
 C02_MonoT == [][\A n \in Node : committed'[n] >= committed[n] \/ Log[l].ev.a = "Init"]_tvars
 
 HW       == TLCSet(1, IF l > TLCGet(1) THEN l ELSE TLCGet(1))
